@@ -179,3 +179,51 @@ def parse_case(case):
 def flags(params):
     mode = params[5]
     return bool(mode & 2), bool(mode & 4)  # strict, drop
+
+
+def split_level(ctx, n, oracle):
+    """the same invariants on the events split() yields (tokens = regions, frames = analysis windows)."""
+    import auditok
+
+    from .. import audiocommon as AC
+
+    rng = ctx.rng("split")
+    for _ in range(n):
+        case = AC.random_split_case(rng, max_windows=40, allow_partial=False)
+        built = AC.build_audio(case)
+        if built is None:
+            continue
+        data, verdicts = built
+        bps = case["width"] * case["channels"]
+        entry = ("split", "region.split", "region.splitp")[rng.randrange(3) if len(case["v"]) <= 20 and len(data) else rng.randrange(2)]
+        ctx.count("split_level_entry_" + entry)
+        try:
+            if entry == "split":
+                regions = list(auditok.split(data, **AC.split_kwargs(case), **AC.audio_kwargs(case)))
+            elif entry == "region.split":
+                regions = list(auditok.AudioRegion(data, case["rate"], case["width"], case["channels"]).split(**AC.split_kwargs(case)))
+            else:
+                import matplotlib.pyplot as plt
+
+                regions = list(auditok.AudioRegion(data, case["rate"], case["width"], case["channels"]).splitp(show=False, **AC.split_kwargs(case)))
+                plt.close("all")
+        except Exception as exc:
+            ctx.violation("exception:" + type(exc).__name__, {"case": AC.case_json(case), "exception": repr(exc)[:200]})
+            continue
+        tokens = []
+        for r in regions:
+            a = round(r.start * case["rate"]) // case["block"]
+            n_w = -(-len(bytes(r)) // (case["block"] * bps))
+            tokens.append((None, a, a + n_w - 1))
+        ctx.case(repr(("split", data, sorted(AC.case_json(case).items()))), bool(tokens))
+        ctx.count("split_level_cases")
+        ctx.count("split_level_regions", len(tokens))
+        if case["drop"] and case["strict"]:
+            ctx.count("split_level_cases_drop_and_strict")
+        for key, detail in oracle(verdicts, tokens, case):
+            detail["case"] = AC.case_json(case)
+            detail["regions(first_window,last_window)"] = [(s, e) for _, s, e in tokens][:20]
+            ctx.violation("split:" + key, detail)
+            break
+
+
